@@ -918,7 +918,7 @@ impl DcpsDomainParticipant {
                                         .find(|(x, _)| x == discovered_type_information)
                                 {
                                     match &discovered_type_information.1 {
-                                        DiscoveredTypeRepresentationState::Requested => return,
+                                        DiscoveredTypeRepresentationState::Requested => continue,
                                         DiscoveredTypeRepresentationState::Discovered(
                                             type_object,
                                         ) => match &type_object {
@@ -998,7 +998,7 @@ impl DcpsDomainParticipant {
                                             DiscoveredTypeRepresentationState::Requested,
                                         ));
                                     }
-                                    return;
+                                    continue;
                                 }
                             }
                             _ => {
@@ -1525,7 +1525,7 @@ impl DcpsDomainParticipant {
                                         .find(|(x, _)| x == discovered_type_information)
                                 {
                                     match &discovered_type_information.1 {
-                                        DiscoveredTypeRepresentationState::Requested => return,
+                                        DiscoveredTypeRepresentationState::Requested => continue,
                                         DiscoveredTypeRepresentationState::Discovered(
                                             type_object,
                                         ) => match &type_object {
@@ -1604,7 +1604,7 @@ impl DcpsDomainParticipant {
                                             DiscoveredTypeRepresentationState::Requested,
                                         ));
                                     }
-                                    return;
+                                    continue;
                                 }
                             }
                             _ => {
